@@ -6,6 +6,9 @@
  *        one tick (= setupterm), the ops on its terminal, D = tickit_unref
  * ops: A:v V:v B:v M:v H:v K:v (setctl altscreen, cursorvis, cursorblink, mouse, cursorshape, keypad_app)
  *      g:X (getctl, X one of AVBMHK)  s:<pen>  c:<pen>  Z (pause)  R (resume)  T (teardown)  D (destroy)
+ *      U only: w (the application takes its own reference on the root window: tickit_window_ref(
+ *      tickit_get_rootwin)), h (... on the terminal: tickit_term_ref), x (releases what it holds).  With
+ *      something held, D (tickit_unref of the instance) does not end the case: x may follow.
  * observation: I:<start bytes> [S:<setup bytes>] then per op: set "<ret>:<bytes>", get "=<value>", else "<bytes>" */
 #include "xt_common.h"
 
@@ -49,6 +52,8 @@ int main(void)
     else { printf(" ERR layer\n"); tickit_term_unref(tt); continue; }
 
     bool destroyed = false;
+    TickitWindow *held_win = NULL;
+    int held_winrefs = 0, held_term = 0;
     for(int i = first; i < vh_ntok && !destroyed; i++) {
       char *f[4];
       char kind = vh_tok[i][0];
@@ -74,15 +79,37 @@ int main(void)
       else if(kind == 'Z') { tickit_term_pause(tt); tickit_term_flush(tt); putchar(' '); xt_puthex(); }
       else if(kind == 'R') { tickit_term_resume(tt); tickit_term_flush(tt); putchar(' '); xt_puthex(); }
       else if(kind == 'T') { tickit_term_teardown(tt); putchar(' '); xt_puthex(); }
-      else if(kind == 'D') {
-        if(t) tickit_unref(t); else tickit_term_unref(tt);
-        destroyed = true;
+      else if(kind == 'D' && (layer == 'T' || t)) {
+        if(t) { tickit_unref(t); t = NULL; } else tickit_term_unref(tt);
+        destroyed = !(held_win || held_term);
+        putchar(' '); xt_puthex();
+      }
+      else if(kind == 'w' && t) {
+        held_win = tickit_window_ref(tickit_get_rootwin(t)); held_winrefs++;
+        tickit_term_flush(tt);
+        putchar(' '); xt_puthex();
+      }
+      else if(kind == 'h' && layer == 'U') {
+        tickit_term_ref(tt); held_term++;
+        putchar(' '); xt_puthex();
+      }
+      else if(kind == 'x' && layer == 'U') {
+        bool last = !t;
+        while(held_winrefs) { tickit_window_unref(held_win); held_winrefs--; }
+        held_win = NULL;
+        while(held_term) { tickit_term_unref(tt); held_term--; }
+        if(last) destroyed = true;
         putchar(' '); xt_puthex();
       }
       else printf(" ERR");
     }
     printf("\n");
-    if(!destroyed) { if(t) tickit_unref(t); else tickit_term_unref(tt); }
+    xt_reset();
+    if(!destroyed) {
+      if(t) tickit_unref(t); else if(layer == 'T') tickit_term_unref(tt);
+      while(held_winrefs) { tickit_window_unref(held_win); held_winrefs--; }
+      while(held_term) { tickit_term_unref(tt); held_term--; }
+    }
   }
   return 0;
 }
